@@ -90,6 +90,13 @@ pub open spec fn wf(n: HctlTreeNode) -> bool decreases n {
         NodeType::Hybrid(_, _, _, c) => wf(*c),
     }
 }
+// `x.to_string()` (ToString through Display) of the syntax types, wherever a changed function may start to use it: inherent stand-ins with the
+// contract that unit tree proves for the Display implementations (display_*)
+impl HctlTreeNode { #[verifier::external_body] pub fn to_string(&self) -> (r: String) ensures r@ == self.formula_str@ { unimplemented!() } }
+impl Atomic { #[verifier::external_body] pub fn to_string(&self) -> (r: String) ensures r@ == disp_atom(view_atom(*self)) { unimplemented!() } }
+impl UnaryOp { #[verifier::external_body] pub fn to_string(&self) -> (r: String) ensures r@ == disp_unary(*self) { unimplemented!() } }
+impl BinaryOp { #[verifier::external_body] pub fn to_string(&self) -> (r: String) ensures r@ == disp_binary(*self) { unimplemented!() } }
+impl HybridOp { #[verifier::external_body] pub fn to_string(&self) -> (r: String) ensures r@ == disp_hybrid(*self) { unimplemented!() } }
 // trusted: `Atomic::to_string()` prints the Display table above
 #[verifier::external_body]
 fn tostr_Atomic(a: &Atomic) -> (r: String)
